@@ -168,9 +168,40 @@ def classifyLoop (ro wr : List String) : Nat → List Char → Option Bool
         else if kwIn w wr then some false
         else none
 
+/-! ### `_VARIABLE_WITH_SUFFIX`: `(?<![:\w])[$@:#][\w$][^\s()'"`;,]*\(` -/
+
+/-- `\w` of a str pattern -/
+def isWordCh (c : Char) : Bool := Py.isAlnum c || c == '_'
+
+/-- the characters the run after the sigil may not contain -/
+def varStop (c : Char) : Bool :=
+  Py.isSpace c || c == '(' || c == ')' || c == '\'' || c == '"' || c == '`' || c == ';' || c == ','
+
+/-- the pattern matches at this position (the lookbehind is checked by the caller): a sigil, a word character or `$`,
+    a run of non-stop characters, then `(` -/
+def varSuffixAt : List Char → Bool
+  | sig :: c1 :: rest =>
+    (sig == '$' || sig == '@' || sig == ':' || sig == '#') && (isWordCh c1 || c1 == '$')
+      && (match rest.dropWhile (fun c => !varStop c) with
+          | '(' :: _ => true
+          | _ => false)
+  | _ => false
+
+/-- `_VARIABLE_WITH_SUFFIX.search(sql) is not None`; `prev` is the character before the current position -/
+def hasVarSuffixAux : Option Char → List Char → Bool
+  | _, [] => false
+  | prev, c :: rest =>
+    ((match prev with
+      | some p => !(p == ':' || isWordCh p)
+      | none => true) && varSuffixAt (c :: rest))
+      || hasVarSuffixAux (some c) rest
+
+def hasVarSuffix (sql : List Char) : Bool := hasVarSuffixAux none sql
+
 /-- `is_readonly_sql(sql, extra_readonly=xr, extra_write=xw)` -/
 def isReadonly (sql : List Char) (xr xw : List String) : Option Bool :=
-  if hasMultiple sql then none
+  if hasVarSuffix sql then none
+  else if hasMultiple sql then none
   else
     let stripped := stripQuoted sql
     classifyLoop (Generated.Sql.readonlyKeywords ++ xr) (Generated.Sql.writeKeywords ++ xw) (stripped.length + 1) stripped
